@@ -98,6 +98,7 @@ def run_tlc(module, cfg, wd, workers=4, timeout=900, simulate=None, depth=None, 
     jto = "-Xmx" + heap
     if java_opts:
         jto += " " + " ".join(java_opts)
+    jto += " -Djava.io.tmpdir=" + wd   # TLC's scratch directories go into the work directory (removed with it), not into /tmp
     env["JAVA_TOOL_OPTIONS"] = jto
     if env_extra:
         env.update(env_extra)
